@@ -7,6 +7,38 @@ HOOK_COMMITS = subprocess.run(["git", "-C", "/repo", "log", "--format=%h %s", "-
 
 # id -> (technique, level text, level note, design ref)
 CLAIMED = {
+ "C03": ("property-based testing of the real client against generated server histories on a mock transport (proptest, custom runner) + model-based probe of the content collector",
+         "Exploration: generated valid server histories (channels x consumers x get/return, arbitrary body framing, cross-channel interleaving, read segmentation down to single bytes, an undrained consumer) are played to the real I/O thread; every receiver must yield exactly the scripted messages once, in order, field by field. The collector is additionally compared with a reference collector at 10^5-10^6 sequences.",
+         "Trusts amq-protocol's codec for generating server frames, OS scheduling of the per-channel client threads (sampled, not enumerated). Bodies <= 12 KB end to end, <= 20 KB in the probe.",
+         "DESIGN.md 4/C03"),
+ "C06": ("property-based testing of FrameBuffer through a cfg(amiquip_verif) re-export: generated frame streams x two generated cut scripts; oracle = independent envelope split + promptness + metamorphic equality",
+         "Exploration: streams of real frames of every kind (plus malformed / EOF / I/O-error tails) are fed under arbitrary read segmentations; frames handed over, their timing (promptness per read_from call), byte counts and the terminal error must equal the reference, and two segmentations of one stream must agree.",
+         "Hook: amiquip::verif::FrameBuffer (re-export). Frames <= 20 KB. The end-to-end half of the property (client reaction) is exercised by C03's segmentations.",
+         "DESIGN.md 4/C06"),
+ "C07": ("property-based testing with a reference reader: generated sequences over an alphabet of server frames (one production per dispatch arm) played to the real client; model-based probe of the collector incl. extreme announced sizes; process aborts caught by subprocess + journal replay",
+         "Exploration: safety (no panic, no abort, observed messages are a prefix of the compliant reading, every call returns) on every sequence, and exact error / hard-error code classification whenever the first irregularity is one the property names.",
+         "Reference reader written from the property text and AMQP content-framing rules; irregularities the property does not name (unsolicited replies, heartbeat on a non-zero channel, CloseOk for unknown channels) get the safety oracle only. A non-content method between a content method and its header is treated as not named.",
+         "DESIGN.md 4/C07"),
+ "C10": ("model-based property testing (proptest op sequences + bounded-exhaustive enumeration for channel_max<=3) of the channel-id table through a cfg(amiquip_verif) probe against a BTreeSet model",
+         "Exploration, exhaustive for tiny tables: all sequences of 4 (quick) / 5 (thorough) primitive ops for channel_max <= 3, random sequences with macro ops up to the full 16-bit id space; after every op the returned id / error and the open set must equal the model's; no panic, no id 0.",
+         "Hook: amiquip::verif::SlotsProbe wrapping ChannelSlots<()>. The end-to-end path (Connection::open_channel) shares this table; its request/response plumbing is exercised by C04/C09/C15.",
+         "DESIGN.md 4/C10"),
+ "C11": ("stateful property-based testing: generated histories of consumer/channel/connection lifecycle events driven against the real client with FIFO barriers; oracle = per-consumer reference model of deliveries and the one terminal message",
+         "Exploration: histories of up to 40 events over 3 channels; every consumer queue must carry exactly the model's deliveries, then exactly one terminal naming the first cause, then disconnect; wire-level cancel accounting.",
+         "Single driver thread (the broker script is the only source of order); cross-thread races of cancel vs. delivery are sampled only through the drop-without-receiver variant.",
+         "DESIGN.md 4/C11"),
+ "C12": ("property-based testing of every public entry point: generated op programs run against the real client, decoded wire compared with an independently written expectation table; bounded-exhaustive over the 48 settle variants",
+         "Exploration: each op (all wrapper levels, all flag combinations over the run, arbitrary strings/tables/numerics) must put exactly the expected method frames on the right channel and return the broker's values; cross-channel settles must panic and send nothing.",
+         "Expectation table written from the AMQP method definitions and rustdoc, not from channel.rs. amq-protocol 1.4's parser misreads hyphenated flags (no-ack, no-local, if-unused, if-empty, auto-delete); those flag octets are decoded by hand in codec.rs.",
+         "DESIGN.md 4/C12"),
+ "C15": ("bounded-exhaustive enumeration of the 57 600-point boundary grid + random points through a cfg(amiquip_verif) hook against an independent spec function; sampled end-to-end sessions",
+         "Exploration, exhaustive on the boundary grid: TuneOk / FrameMaxTooSmall must equal the spec for every grid point; end to end the TuneOk on the wire, the channel_max limit and the frame size limit are obeyed.",
+         "Hook: amiquip::verif::tune_ok. The heartbeat-timing clause is decided by C17's machinery (real clock).",
+         "DESIGN.md 4/C15"),
+ "C19": ("property-based testing with URLs assembled from generated components (expected decoding known by construction) through a cfg(amiquip_verif) hook; loopback TCP sessions for the end-to-end half",
+         "Exploration: every assembled URL must decode to the components it was built from (or to one of the specific errors its defects allow); Connection::open must reject every decodable amqp:// URL with InsecureUrl; sampled loopback connections must present the URL's credentials, vhost and tuning.",
+         "Hook: amiquip::verif::decode_url. Ambiguous shapes are not generated (explicitly empty user/password, dot path segments, '+'-signed numbers, trailing-slash paths, spellings of external other than 'external').",
+         "DESIGN.md 4/C19"),
  "C02": ("property-based testing (proptest strategies, custom runner) of the real client on a mock transport; oracle = independent envelope parser + field-by-field comparison with the publish arguments",
          "Exploration: generated publishes (all frame_max pairs, boundary body lengths, arbitrary properties/flags) run end-to-end through the real I/O thread; the decoded wire must equal the reference framing of every publish. Bounded sampling, no proof.",
          "Trusts amq-protocol's payload codec, mio/mio-extras/crossbeam semantics and the harness's envelope parser; bodies <= 300 KB, <= 3 channels, one publishing thread per session.",
